@@ -232,7 +232,9 @@ def std_zero(pose, axis):
     """where the deviation the implementation divides by is exactly zero (value fact, read from the live object)"""
     d = pose.body.data
     if backend_of(pose) == 0:
-        sd = ma.masked_array(np.asarray(d.data).copy(), mask=np.array(ma.getmaskarray(d))).std(axis=tuple(axis))
+        # on the LIVE array: a copy may be laid out differently in memory, NumPy then sums in another order and a deviation that is
+        # exactly 0 for the implementation comes out as 1e-9 here (seen in the thorough tier once arrays arrived in Fortran order)
+        sd = d.std(axis=tuple(axis))
         return (np.asarray(ma.getdata(sd)) == 0) & ~np.asarray(ma.getmaskarray(sd))
     sd = d.std(axis=tuple(axis))
     return (arr(sd.tensor) == 0) & arr(sd.mask).astype(bool)
